@@ -536,7 +536,7 @@ func main() {
 	run.Cov["preemption_bound"] = bound
 	run.Cov["scenarios"] = per
 	run.Cov["state_note"] = "stateless exploration: states = distinct final (outcome, blocked-thread set) pairs, transitions = scheduling points executed; every execution runs the real (overlay-rewritten) sse package"
-	run.Assumption("visible operations are mutex, channel, select, spawn, timer, context cancellation (polled) and the harness writer's Write/Flush; code between them runs atomically (data races are the concern of a free-running -race pass)")
+	run.Assumption("visible operations are mutex, channel, select, spawn, timer, atomic operations (sync/atomic is shimmed), context cancellation (polled) and the harness writer's Write/Flush; code between them runs atomically (data races are the concern of a free-running -race pass)")
 	run.Assumption("goroutines left blocked forever after the run are not counted as violations (the statement does not forbid leaks)")
 	nontrivial := execs - len(scenarios)
 	if nontrivial < 2 {
